@@ -550,6 +550,25 @@ def _uses_before_effects(blk, S, uses):
       for t in st.targets:
         expr(t)
       return
+    if isinstance(st, ast.If):
+      # the two branches are alternatives: an effect in one does not precede a use in the other
+      expr(st.test)
+      d0 = state['dirty']
+      for s2 in st.body:
+        stmt(s2)
+      d1 = state['dirty']
+      state['dirty'] = d0
+      for s2 in st.orelse:
+        stmt(s2)
+      state['dirty'] = state['dirty'] or d1
+      return
+    if isinstance(st, ast.With):
+      for it in st.items:
+        expr(it.context_expr)
+      state['dirty'] = True      # entering a context manager runs code
+      for s2 in st.body:
+        stmt(s2)
+      return
     expr(st)
   i = blk.index(S)
   for st in blk[i + 1:]:
